@@ -63,14 +63,32 @@ Proof.
     [vm_compute; reflexivity|exact H].
 Qed.
 
-(* combine_surrogate on the whole surrogate domain (1024 x 1024 points) *)
-Lemma link_combine_surrogate a b : a < 1024 -> b < 1024 ->
-  g_combine_surrogate (Z.of_N (55296 + a)) (Z.of_N (56320 + b)) = Z.of_N (combine_surrogate (55296 + a) (56320 + b)).
+(* combine_surrogate for all 16-bit code units *)
+Lemma lor_shift10 a b : (0 <= a)%Z -> (0 <= b < 1024)%Z -> Z.lor (Z.shiftl a 10) b = (a * 1024 + b)%Z.
 Proof.
-  intros Ha Hb. apply Z.eqb_eq.
-  pose (P := fun a b => Z.eqb (g_combine_surrogate (Z.of_N (55296 + a)) (Z.of_N (56320 + b)))
-                              (Z.of_N (combine_surrogate (55296 + a) (56320 + b)))).
-  assert (H : forallb (fun a => forallb (P a) (N_seq 1024)) (N_seq 1024) = true) by (vm_compute; reflexivity).
-  pose proof (sweep_N 1024 _ H a Ha) as H1. cbv beta in H1.
-  exact (sweep_N 1024 _ H1 b Hb).
+  intros Ha Hb.
+  assert (L : Z.land (Z.shiftl a 10) b = 0%Z).
+  { apply Z.bits_inj'. intros n Hn. rewrite Z.land_spec, Z.bits_0.
+    destruct (Z.ltb_spec n 10) as [Hlt|Hge].
+    - rewrite Z.shiftl_spec_low by lia. reflexivity.
+    - replace b with (b mod 2 ^ 10)%Z by (apply Z.mod_small; lia).
+      rewrite Z.mod_pow2_bits_high by lia. apply andb_false_r. }
+  rewrite <- Z.lxor_lor by exact L. rewrite <- Z.add_nocarry_lxor by exact L.
+  rewrite Z.shiftl_mul_pow2 by lia. reflexivity.
+Qed.
+
+Lemma link_combine_surrogate w1 w2 : w1 < 65536 -> w2 < 65536 ->
+  g_combine_surrogate (Z.of_N w1) (Z.of_N w2) = Z.of_N (combine_surrogate w1 w2).
+Proof.
+  intros H1 H2. unfold g_combine_surrogate, combine_surrogate.
+  change 1023%Z with (Z.ones 10). rewrite !Z.land_ones by lia.
+  change (2 ^ 10)%Z with 1024%Z.
+  assert (A : (0 <= Z.of_N w1 mod 1024 < 1024)%Z) by (apply Z.mod_pos_bound; lia).
+  assert (B : (0 <= Z.of_N w2 mod 1024 < 1024)%Z) by (apply Z.mod_pos_bound; lia).
+  unfold wrapu. change (2 ^ 32)%Z with 4294967296%Z.
+  rewrite (Z.mod_small (Z.of_N w1 mod 1024)) by lia.
+  rewrite (Z.mod_small (Z.of_N w2 mod 1024)) by lia.
+  rewrite (Z.mod_small (Z.shiftl _ _)) by (rewrite Z.shiftl_mul_pow2 by lia; lia).
+  rewrite lor_shift10 by lia.
+  rewrite !Z.mod_small by lia. lia.
 Qed.
